@@ -1316,6 +1316,9 @@ def wl_fill(rng, rec, tier):
             A = gen.attempt(qtn.MatrixProductOperator, arrays, sites=sites, L=L, shape="lrud")
     if A is None:
         return {"rejected": True}
+    if rng.random() < 0.4:
+        # present sites not joined by any bond at all (what squeeze leaves of a product)
+        gen.attempt(A.squeeze_)
     gen.attempt(A.fill_empty_sites, gen.choice(rng, ["full", "minimal"]))
     # constructors given a subset of sites: the geometry they declare (L, which sites
     # are present) and the open labels must be those of the sites given, the dense
